@@ -126,7 +126,15 @@ def _handle_job_set(function):
     def call(self, job_set=taskhandle.DEFAULT_JOB_SET):
         job_set.started_job(str(self))
         function(self)
-        job_set.finished_job()
+        try:
+            job_set.finished_job()
+        except exceptions.InterruptedTaskError:
+            # The task was stopped while this change was being performed.
+            # The change has taken effect but the caller will never learn
+            # that, so take it back before reporting the interruption.
+            inverse = self.undo if function.__name__ == "do" else self.do
+            inverse()
+            raise
 
     return call
 
